@@ -135,6 +135,12 @@ def check_C05(ctx):
             ctx.violation("Unmarshal %s: %s" % (u["class"], u.get("panic", "")[:200]), case, impl=u, key="unmarshal-" + u["class"],
                           theorem="C05_pipeline")
             continue
+        if mbind.get(c["id"]) != b.get("obs"):
+            ndis += 1
+            ctx.violation("Bind of the value's blocks: implementation %r, model of the documented matching rule %r" % (
+                (b.get("obs") or "")[:200], (mbind.get(c["id"]) or "")[:200]), dict(case, blocks=c["blocks"]),
+                impl=b, model=mbind.get(c["id"]), theorem="C05_bind_roundtrip", key="bind-vs-model")
+            continue
         if not b.get("obs", "").startswith("ok "):
             ctx.notes.append("generator produced a block Bind rejects: %s" % b.get("obs"))
             continue
@@ -148,8 +154,6 @@ def check_C05(ctx):
         if m.get("class") != "ok" or m.get("binding") != want:
             ctx.broken.append(("correspondence", "model reading of a rendered value", "case %s: model binding=%s want=%s" % (
                 c["id"], (m.get("binding") or m.get("class") or "")[:200], want[:200])))
-        if mbind.get(c["id"]) != b["obs"]:
-            ctx.broken.append(("correspondence", "model Bind vs implementation Bind", "case %s: %s / %s" % (c["id"], mbind.get(c["id"]), b["obs"])))
     ctx.suite_stats["unmarshal"] = dict(cases=len(cases), bound_ok=okc, disagreements=ndis)
     ctx.traces = okc - ndis
     for c in cases[:2]:
